@@ -4,6 +4,7 @@ from __future__ import annotations
 import ast
 from typing import Dict, List, Set
 
+from .. import terms as T
 from ..astutil import names_in
 from ..model import FuncInfo, norm, walk_no_nested
 from ..report import Ctx
@@ -116,6 +117,8 @@ def check(ctx: Ctx) -> None:
     if not ok:
         ctx.violation('C12.b', 'doWF', 'the returned allocation is not scattered back through the argsort index that sorted the '
                       'gains (%s): the powers come back in the wrong channel order' % detail, fn.path, fn.lineno, operand='unsort')
+    # last: its unrecognised shapes answer "cannot tell", which must not hide the definite rules above
+    _check_budget(ctx, fn)
 
 
 def _check_level(ctx: Ctx, fn: FuncInfo) -> None:
@@ -162,6 +165,108 @@ def _check_level(ctx: Ctx, fn: FuncInfo) -> None:
         ctx.violation('C12.c', 'doWF', 'the returned water level `%s`: %s' % (norm(defs[0])[:80], why), fn.path, defs[0].lineno, operand='level')
 
 
+def _check_budget(ctx: Ctx, fn: FuncInfo) -> None:
+    """C12.e: the allocation of the channels that stay on sums to the budget BY CONSTRUCTION, and the drop loop runs while
+    the tentative allocation is unaffordable."""
+    M = ctx.model
+    ctx.rule('C12.e', 'the remainder dPt - sum(Ps) is spread evenly over exactly the channels that stay on (so the allocation sums to the total '
+                      'power as an algebraic identity), and channels are dropped while sum(Ps) > dPt', floor=2)
+    loc = T.local_terms(M, fn, opaque=set())
+    # the tentative allocation of the channels that stay on: the vector that is scattered back
+    rets = [n for n in walk_no_nested(fn.node) if isinstance(n, ast.Return) and isinstance(n.value, ast.Tuple)]
+    scat = [n for n in walk_no_nested(fn.node) if isinstance(n, ast.Assign) and isinstance(n.targets[0], ast.Subscript)
+            and isinstance(n.value, ast.Name) and rets and norm(n.targets[0].value) == norm(rets[0].value.elts[0])]
+    if len(scat) != 1 or scat[0].value.id not in loc:
+        ctx.error('C12.e: the scattered allocation vector is not a single-assignment formula (cannot tell)')
+    aux = loc[scat[0].value.id]
+    # Ps = the tentative allocation (re-assigned in the loop): a symbol of the term
+    syms = {a[1] for a in T.atoms_of(aux) if a[0] == 'sym'}
+    sums = [a for a in T.atoms_of(aux) if a[0] == 'call' and a[1].split('.')[-1] == 'sum']
+    ctx.instance('C12.e', 'doWF:spread')
+    if not sums:
+        ctx.obligation('C12.e', 'doWF:spread', False, {'allocation': aux.pretty()})
+        ctx.violation('C12.e', 'doWF', 'the allocation `%s` does not add any share of the remaining power (no sum over the tentative powers): it '
+                      'does not sum to the total power' % aux.pretty()[:80], fn.path, scat[0].lineno, operand='spread')
+        return
+    if len(sums) != 1:
+        ctx.error('C12.e: the allocation `%s` does not contain exactly one sum over the tentative powers (cannot tell)' % aux.pretty())
+    ps = T._t(sums[0][2][0])
+    S = T.Term.atom(sums[0])
+    # number of channels that stay on = length of the index range the tentative powers are computed over
+    ps_name = ps.single()[0][0][0][1] if ps.single() and len(ps.single()[0]) == 1 and ps.single()[0][0][0][0] == 'sym' else None
+    # over how many channels: the length of every vector index (arange / slice) used in the function - one value
+    counts = set()
+    env = T.Env(M, fn, opaque=set())
+    env.vars.update(loc)
+
+    def count_of(ix: ast.AST):
+        if isinstance(ix, ast.Name) and ix.id in loc:
+            for a in T.atoms_of(loc[ix.id]):
+                if a[0] == 'call' and a[1].split('.')[-1] == 'arange':
+                    args = [T._t(k) for k in a[2]]
+                    return args[1] - args[0] if len(args) > 1 else args[0]
+            return None
+        try:
+            if isinstance(ix, ast.Call) and norm(ix.func) in ('np.arange', 'range') and ix.args:
+                a0 = T.from_ast(ix.args[0], env)
+                return (T.from_ast(ix.args[1], env) - a0) if len(ix.args) > 1 else a0
+            if isinstance(ix, ast.Slice) and ix.upper is not None and ix.step is None:
+                up = T.from_ast(ix.upper, env)
+                return up - T.from_ast(ix.lower, env) if ix.lower is not None else up
+        except T.Unknown:
+            return None
+        return None
+    for n in walk_no_nested(fn.node):
+        if isinstance(n, ast.Subscript):
+            c = count_of(n.slice)
+            if c is not None:
+                counts.add(c)
+    if len(counts) != 1:
+        ctx.error('C12.e: cannot determine over how many channels the tentative powers are computed (%s): cannot tell'
+                  % [c.pretty() for c in counts])
+    n_on = counts.pop()
+    budget = [p for p in fn.params][1]
+    want = ps + (T.Term.sym(budget) - S) * T.t_pow(n_on, T.Term.const(-1))
+    ok = T.rat_equal(aux, want)
+    ctx.obligation('C12.e', 'doWF:spread', ok, {'allocation': aux.pretty(), 'expected': want.pretty(), 'channels_on': n_on.pretty()})
+    if not ok:
+        ctx.violation('C12.e', 'doWF', 'the allocation `%s` is not Ps + (%s - sum(Ps)) / (number of channels that stay on = %s): it does not sum '
+                      'to the total power' % (aux.pretty(), budget, n_on.pretty()), fn.path, scat[0].lineno, operand='spread')
+    # the drop loop
+    ctx.instance('C12.e', 'doWF:drop-while-unaffordable')
+    whiles = [n for n in walk_no_nested(fn.node) if isinstance(n, ast.While)]
+    if len(whiles) != 1:
+        ctx.error('C12.e: doWF has %d while loops (one drop loop expected; cannot tell)' % len(whiles))
+    from ..paths import implied_compares
+    test = whiles[0].test
+    if isinstance(test, ast.Constant) and test.value is True:
+        # do-while form: the exit test is the negation of the continue condition
+        brk = [n for n in ast.walk(whiles[0]) if isinstance(n, ast.If) and any(isinstance(x, ast.Break) for x in n.body)]
+        if len(brk) != 1 or not (isinstance(brk[0].test, ast.UnaryOp) and isinstance(brk[0].test.op, ast.Not)):
+            ctx.error('C12.e: the exit of the drop loop is not `if not (<continue condition>): break` (cannot tell)')
+        test = brk[0].test.operand
+    from ..paths import conjuncts
+    over = False
+    seen_cmp = []
+    for cj in conjuncts(test):
+        if isinstance(cj, ast.Compare) and len(cj.ops) == 1 and isinstance(cj.ops[0], (ast.Gt, ast.Lt)):
+            big, small = (cj.left, cj.comparators[0]) if isinstance(cj.ops[0], ast.Gt) else (cj.comparators[0], cj.left)
+            try:
+                tb, ts = T.from_ast(big, env), T.from_ast(small, env)
+            except T.Unknown:
+                continue
+            seen_cmp.append('%s > %s' % (tb.pretty()[:50], ts.pretty()[:30]))
+            if tb == S and ts == T.Term.sym(budget):
+                over = True
+    imp = seen_cmp
+    ok2 = over
+    ctx.obligation('C12.e', 'doWF:drop-while-unaffordable', ok2, {'loop_test': norm(test), 'implied': sorted(imp)})
+    if not ok2:
+        ctx.violation('C12.e', 'doWF', 'the drop loop `%s` does not run while sum(tentative powers) > %s: an unaffordable allocation is kept (negative powers '
+                      'after the remainder is spread) or affordable channels are dropped' % (norm(test)[:70], budget),
+                      fn.path, whiles[0].lineno, operand='drop-loop')
+
+
 def _enclosing_target(fn: FuncInfo, node: ast.AST) -> str:
     for s in walk_no_nested(fn.node):
         if isinstance(s, ast.Assign) and any(x is node for x in ast.walk(s.value)):
@@ -176,6 +281,12 @@ def synthetic():
 
 
 MUTANTS = [
+    Mutant('remainder-spread-over-all-channels', WF, 'doWF', [('replace', 'dPdiff / (dNChannels - dRemoveChannels) + Ps', 'dPdiff / dNChannels + Ps')],
+           r'C12\.e:doWF:spread'),
+    Mutant('remainder-not-spread', WF, 'doWF', [('replace', 'dPdiff / (dNChannels - dRemoveChannels) + Ps', 'Ps')], r'C12\.e:doWF'),
+    Mutant('drop-loop-reversed-comparison', WF, 'doWF', [('replace', 'sum(Ps) > dPt', 'sum(Ps) < dPt')], r'C12\.e:doWF:drop-loop'),
+    Mutant('benign-remainder-first', WF, 'doWF', [('replace', 'dPdiff / (dNChannels - dRemoveChannels) + Ps', 'Ps + dPdiff / (dNChannels - dRemoveChannels)')],
+           None, benign=True),
     Mutant('revert-fix-mu-without-Es', WF, 'doWF', [('regex', r'mu = vtOptPaux\[0\] \+ float\(noiseVar\) / \(Es \* vtChannelsSorted\[0\]\)',
                                                       'mu = vtOptPaux[0] + float(noiseVar) / vtChannelsSorted[0]')], r'C12\.a:doWF:mu'),
     Mutant('first-minMu-without-Es', WF, 'doWF', [('regex', r'minMu = float\(noiseVar\) / \(Es \* (vtChannelsSorted\[dNChannels - dRemoveChannels - 1\])\)',
